@@ -14,6 +14,9 @@ Oracles: direct readings of the property statement (never consult the model)."""
 import asyncio
 import concurrent.futures as cf
 import json
+import sys
+import threading
+import time
 import warnings
 
 import k2
@@ -25,6 +28,38 @@ from lib import gz, glist
 IMPORTS = "Base.Prelude Base.CaseLib Ops.Machine Ops.Bridges"
 CANCELLED = -20
 FAMILIES = ["from_future", "to_future", "run", "to_async", "from_callback"]
+# payloads: falsy values head the pool; None and "" travel to Coq under reserved ids (the models are parametric in
+# the element, so any injective encoding is sound)
+NONE_ID, EMPTY_ID = -100, -101
+FALSY = [None, 0, ""]
+POOL = FALSY + list(range(1, 10))
+FALSY_ERR = 14                          # UserError whose truth value is False (len() == 0)
+NOTES = {"to_future_default_deprecation_warnings": 0, "run_blocked_observed": 0, "run_thread_timeouts": 0,
+         "run_sched_forwarded": 0}
+
+
+def enc(v):
+    return NONE_ID if v is None else (EMPTY_ID if v == "" and isinstance(v, str) else v)
+
+
+def gv(v):
+    return gz(enc(v))
+
+
+class FalsyError(UserError):
+    """a legal exception object that is falsy: `if error:` is not a test for `an error occurred`"""
+
+    def __len__(self):
+        return 0
+
+
+def mkerr(code):
+    return FalsyError(code) if code == FALSY_ERR else UserError(code)
+
+
+def is_falsy_last(evs):
+    w = expected_outcome(evs)
+    return w[0] == "result" and not w[1]
 
 
 def err_id(e):
@@ -90,10 +125,10 @@ def fut_state(f):
 
 def g_fstate(s):
     return {"pending": "FPending", "cancelled": "FCancelled"}.get(s[0]) or \
-        (f"(FResult {gz(s[1])})" if s[0] == "result" else f"(FExn {gz(s[1])})")
+        (f"(FResult {gv(s[1])})" if s[0] == "result" else f"(FExn {gz(s[1])})")
 
 
-def g_notes(ns, enc=gz):
+def g_notes(ns, enc=gv):
     def ev(a, b):
         return f"Next {enc(b)}" if a == "N" else (f"Err {gz(b)}" if a == "E" else "Done")
     return "[" + "; ".join(f"({t}%nat, {ev(a, b)})" for (t, a, b) in ns) + "]"
@@ -112,7 +147,7 @@ def settle(f, s):
     if s[0] == "result":
         f.set_result(s[1])
     elif s[0] == "exn":
-        f.set_exception(UserError(s[1]))
+        f.set_exception(mkerr(s[1]))
     elif s[0] == "cancelled":
         f.harness_cancel()
 
@@ -120,10 +155,10 @@ def settle(f, s):
 # ---- from_future ------------------------------------------------------------------------------
 
 def gen_from_future(rng):
-    init = rng.choice([["pending"]] * 5 + [["result", rng.randrange(10)], ["exn", 11], ["cancelled"]])
+    init = rng.choice([["pending"]] * 5 + [["result", rng.choice(POOL)], ["exn", 11], ["cancelled"]])
     acts = []
     for _ in range(rng.choice([0, 1, 1, 2, 2, 3, 4])):
-        acts.append(rng.choice([["result", rng.randrange(10)], ["exn", rng.choice([11, 12])], ["cancelled"],
+        acts.append(rng.choice([["result", rng.choice(POOL)], ["exn", rng.choice([11, 12])], ["cancelled"],
                                 ["dispose"], ["dispose"]]))
     return {"family": "from_future", "kind": rng.choice(["cf", "aio", "start_async"]), "init": init, "acts": acts}
 
@@ -149,8 +184,11 @@ def run_from_future(c):
 
 def g_from_future(c, r):
     def act(a):
-        return {"result": f"ASetResult {gz(a[1]) if len(a) > 1 else ''}", "exn": f"ASetExn {gz(a[1]) if len(a) > 1 else ''}",
-                "cancelled": "ACancel", "dispose": "ADispose"}[a[0]]
+        if a[0] == "result":
+            return f"ASetResult {gv(a[1])}"
+        if a[0] == "exn":
+            return f"ASetExn {gz(a[1])}"
+        return {"cancelled": "ACancel", "dispose": "ADispose"}[a[0]]
     acts = "[" + "; ".join(act(a) for a in c["acts"]) + "]"
     return (f"BFromFuture {g_fstate(c['init'])} {acts}",
             f"OFromFuture {g_notes(r['notes'])} {g_nats(r['cancels'])} {g_fstate(r['fin'])}")
@@ -184,7 +222,7 @@ def oracle_from_future(c, r):
 # ---- to_future (hot source) ----------------------------------------------------------------------
 
 def gen_events(rng):
-    evs = [["N", rng.randrange(10)] for _ in range(rng.choice([0, 0, 1, 2, 3, 5]))]
+    evs = [["N", rng.choice(POOL)] for _ in range(rng.choice([0, 0, 1, 2, 3, 5]))]
     r = rng.random()
     if r < 0.5:
         evs.append(["C"])
@@ -199,7 +237,18 @@ def gen_to_future(rng):
     acts = [["src", e] for e in gen_events(rng)]
     if rng.random() < 0.25:
         acts.insert(rng.randrange(len(acts) + 1), ["cancel"])
-    return {"family": "to_future", "kind": rng.choice(["cf", "aio"]), "acts": acts}
+    return {"family": "to_future", "kind": rng.choice(["cf", "aio", "aio", "default"]), "acts": acts}
+
+
+def default_to_future(obs):
+    """ops.to_future() with no future_ctor, called OUTSIDE a running loop: _tofuture.py falls back to a bare
+    asyncio.Future().  DeprecationWarnings it triggers are counted (reported in the evidence), not hidden."""
+    from reactivex import operators as ops
+    with warnings.catch_warnings(record=True) as w:
+        warnings.simplefilter("always")
+        fut = obs.pipe(ops.to_future())
+    NOTES["to_future_default_deprecation_warnings"] += sum(1 for x in w if issubclass(x.category, DeprecationWarning))
+    return fut
 
 
 def run_to_future(c):
@@ -212,22 +261,32 @@ def run_to_future(c):
         f = SpyAio() if c["kind"] == "aio" else SpyCF()
         made.append(f)
         return f
-    fut = src.observable.pipe(ops.to_future(ctor))
-    spin()
+    if c["kind"] == "default":
+        fut = default_to_future(src.observable)
+        own = fut.get_loop()              # the loop the library's fallback bound the future to: stepped like ours
+
+        def step():
+            spin()
+            for _ in range(3):
+                own.run_until_complete(asyncio.sleep(0))
+    else:
+        fut = src.observable.pipe(ops.to_future(ctor))
+        step = spin
+    step()
     for k, a in enumerate(c["acts"], 1):
         clock[0] = k
         if a[0] == "cancel":
-            fut.harness_cancel()
+            fut.harness_cancel() if made else fut.cancel()
         else:
             e = a[1]
-            src.push(("N", e[1]) if e[0] == "N" else (("E", UserError(e[1])) if e[0] == "E" else ("C",)))
-        spin()
+            src.push(("N", e[1]) if e[0] == "N" else (("E", mkerr(e[1])) if e[0] == "E" else ("C",)))
+        step()
     return {"unsubs": [t for (what, _, t) in src.log if what == "unsub"], "fin": fut_state(fut),
-            "subs": len(src.observers), "cancels_by_library": made[0].calls}
+            "subs": len(src.observers), "cancels_by_library": made[0].calls if made else []}
 
 
 def g_ev(e):
-    return f"Next {gz(e[1])}" if e[0] == "N" else (f"Err {gz(e[1])}" if e[0] == "E" else "Done")
+    return f"Next {gv(e[1])}" if e[0] == "N" else (f"Err {gz(e[1])}" if e[0] == "E" else "Done")
 
 
 def g_to_future(c, r):
@@ -259,53 +318,132 @@ def oracle_to_future(c, r):
 
 # ---- run() / await / to_future on a cold source ------------------------------------------------------
 
+VIAS = ["run", "run", "await", "to_future_cold", "to_future_default", "run_thread", "run_thread", "run_sched",
+        "await_later"]
+LATER = ("run_thread", "await_later")   # the source terminates AFTER subscribe returned
+
+
 def gen_run(rng):
-    return {"family": "run", "via": rng.choice(["run", "run", "await", "to_future_cold"]), "events": gen_events(rng)}
+    c = {"family": "run", "via": rng.choice(VIAS), "events": gen_events(rng)}
+    if c["via"] in LATER and expected_outcome(c["events"])[0] == "pending":
+        c["events"].append(["C"])         # a source that never terminates is observed on the calling thread only
+    return c
 
 
-def cold(events):
+def push_all(observer, events):
+    for e in events:
+        if e[0] == "N":
+            observer.on_next(e[1])
+        elif e[0] == "E":
+            observer.on_error(mkerr(e[1]))
+        else:
+            observer.on_completed()
+
+
+def cold(events, seen=None):
     import reactivex as rx
     from reactivex.disposable import Disposable
 
     def subscribe(observer, scheduler=None):
-        for e in events:
-            if e[0] == "N":
-                observer.on_next(e[1])
-            elif e[0] == "E":
-                observer.on_error(UserError(e[1]))
-            else:
-                observer.on_completed()
+        if seen is not None:
+            seen.append(scheduler)
+        push_all(observer, events)
+        return Disposable()
+    return rx.create(subscribe)
+
+
+def blocked_in_wait(ident):
+    """is the thread `ident` inside threading's wait() right now?  (pure observation of its stack)"""
+    f = sys._current_frames().get(ident)
+    while f is not None:
+        if f.f_code.co_name == "wait" and f.f_code.co_filename.endswith("threading.py"):
+            return True
+        f = f.f_back
+    return False
+
+
+def threaded(events, threads):
+    """subscribe returns at once; a plain thread delivers the whole sequence later: as soon as the subscribing
+    thread is seen waiting (at the latest after 0.3 s), so the caller of run() really has to block"""
+    import reactivex as rx
+    from reactivex.disposable import Disposable
+
+    def subscribe(observer, scheduler=None):
+        me = threading.get_ident()
+
+        def body():
+            time.sleep(0.003)
+            limit = time.monotonic() + 0.3
+            while time.monotonic() < limit:
+                if blocked_in_wait(me):
+                    NOTES["run_blocked_observed"] += 1
+                    break
+                time.sleep(0.001)
+            push_all(observer, events)
+        t = threading.Thread(target=body, daemon=True)
+        threads.append(t)
+        t.start()
+        return Disposable()
+    return rx.create(subscribe)
+
+
+def on_loop_later(events):
+    """subscribe returns at once; the sequence is delivered by a timer of the running asyncio loop"""
+    import reactivex as rx
+    from reactivex.disposable import Disposable
+
+    def subscribe(observer, scheduler=None):
+        asyncio.get_running_loop().call_later(0.003, push_all, observer, events)
         return Disposable()
     return rx.create(subscribe)
 
 
 def run_run(c):
     from reactivex import operators as ops
-    obs = cold(c["events"])
+    from reactivex.scheduler import ImmediateScheduler
+    via = c["via"]
     terminal = any(e[0] in "EC" for e in c["events"])
+    threads, seen = [], []
+    obs = threaded(c["events"], threads) if via == "run_thread" else (
+        on_loop_later(c["events"]) if via == "await_later" else cold(c["events"], seen))
+    mine = ImmediateScheduler()
 
     def call():
-        if c["via"] == "run":
+        if via in ("run", "run_thread"):
             return obs.run()
-        if c["via"] == "await":
+        if via == "run_sched":
+            from reactivex.run import run as rx_run
+            return rx_run(obs, mine)
+        if via in ("await", "await_later"):
             async def aw():
                 return await obs
-            return loop().run_until_complete(asyncio.wait_for(aw(), 0.05 if not terminal else 5))
-        f = obs.pipe(ops.to_future(SpyCF))
+            return loop().run_until_complete(asyncio.wait_for(aw(), 0.05 if not terminal else 20))
+        f = default_to_future(obs) if via == "to_future_default" else obs.pipe(ops.to_future(SpyCF))
         if not f.done():
             raise asyncio.TimeoutError()
         return f.result()
+    # generous watchdog: only a run() that never returns reaches it (after the first such case the rest of the
+    # run uses a short one, a broken latch would otherwise cost 30 s per case)
+    budget = 0.1 if not terminal else (30 if not NOTES["run_thread_timeouts"] else 1)
     try:
-        st, v = lib.with_timeout(0.1 if not terminal else 10, call)
-        return ("blocks",) if st == "timeout" else ("returns", v)
+        st, v = lib.with_timeout(budget, call)
+        if st == "timeout" and terminal:
+            NOTES["run_thread_timeouts"] += 1
+        res = ("blocks",) if st == "timeout" else ("returns", v)
     except (asyncio.TimeoutError, TimeoutError):
-        return ("blocks",)
+        res = ("blocks",)
     except Exception as e:
-        return ("raises", err_id(e))
+        res = ("raises", err_id(e))
+    for t in threads:
+        t.join(5)
+    if via == "run_sched":                # the statement is silent about the scheduler parameter: counted only
+        NOTES["run_sched_forwarded"] += seen == [mine]
+    return res
 
 
 def g_run(c, r):
-    out = {"blocks": "Blocks"}.get(r[0]) or (f"(Returns {gz(r[1])})" if r[0] == "returns" else f"(Raises {gz(r[1])})")
+    out = {"blocks": "Blocks"}.get(r[0]) or \
+        (f"(Returns {gv(r[1])})" if r[0] == "returns" else f"(Raises {gz(r[1])})")
     return f"BRun [{'; '.join(g_ev(e) for e in c['events'])}]", f"ORun {out}"
 
 
@@ -326,8 +464,10 @@ def gen_to_async(rng):
         acts.insert(rng.randrange(1, len(acts) + 1), "unsub")
     if sched == "proxy" and rng.random() < 0.15:
         acts.remove("run")
-    return {"family": "to_async", "sched": sched, "via": rng.choice(["to_async", "start"]),
-            "r": rng.choice([["ok", rng.randrange(10)], ["ok", rng.randrange(10)], ["raise", 71]]), "acts": acts}
+    via = rng.choice(["to_async", "start"])
+    args = [rng.randrange(1, 10) for _ in range(rng.choice([1, 2, 3]))] if via == "to_async" else []
+    return {"family": "to_async", "sched": sched, "via": via, "args": args,
+            "r": rng.choice([["ok", rng.choice(POOL)], ["ok", rng.choice(POOL)], ["raise", 71]]), "acts": acts}
 
 
 def run_to_async(c):
@@ -338,13 +478,15 @@ def run_to_async(c):
     calls, tag, out, box = [], [0], [], {}
 
     def func(*args):
-        calls.append(args)
+        calls.append(list(args))
         if c["r"][0] == "raise":
             raise UserError(c["r"][1])
-        return c["r"][1] + sum(args)
+        return c["r"][1]
+
+    c.setdefault("args", [0, 0] if c["via"] == "to_async" else [])
 
     def make():
-        box["obs"] = rx.start(func, sched) if c["via"] == "start" else rx.to_async(func, sched)(0, 0)
+        box["obs"] = rx.start(func, sched) if c["via"] == "start" else rx.to_async(func, sched)(*c["args"])
     if c["sched"] == "proxy":
         make()
     for k, a in enumerate(c["acts"]):
@@ -358,11 +500,11 @@ def run_to_async(c):
             box["d"] = box["obs"].subscribe(*logger(out, tag))
         elif "d" in box:
             box["d"].dispose()
-    return {"notes": out, "calls": len(calls)}
+    return {"notes": out, "calls": len(calls), "received": calls}
 
 
 def g_to_async(c, r):
-    res = f"(Ok {gz(c['r'][1])})" if c["r"][0] == "ok" else f"(Raise {gz(c['r'][1])})"
+    res = f"(Ok {gv(c['r'][1])})" if c["r"][0] == "ok" else f"(Raise {gz(c['r'][1])})"
     acts = "[" + "; ".join({"run": "ARun", "sub": "ASubscribe", "unsub": "AUnsubscribe"}[a] for a in c["acts"]) + "]"
     return f"BToAsync {res} {acts}", f"OToAsync {g_notes(r['notes'])}"
 
@@ -372,6 +514,8 @@ def oracle_to_async(c, r):
     acts = c["acts"]
     if r["calls"] > 1:
         return f"the function was called {r['calls']} times"
+    if r["received"] and r["received"][0] != c["args"]:
+        return f"the function received the arguments {r['received'][0]}, the asynchronous function was called with {c['args']}"
     if "run" in acts and "sub" in acts:
         both = max(acts.index("run"), acts.index("sub"))
         if "unsub" not in acts or acts.index("unsub") > both:
@@ -380,6 +524,43 @@ def oracle_to_async(c, r):
                 return f"received {ns}, specified {want}"
     if len([1 for a, _ in ns if a == "N"]) > 1:
         return f"more than one result: {ns}"
+    return None
+
+
+# ---- to_async / start on their DEFAULT scheduler (TimeoutScheduler threads): oracle only ----------------------
+
+def gen_to_async_default(rng):
+    via = rng.choice(["to_async", "start"])
+    return {"family": "to_async_default", "via": via,
+            "args": [rng.randrange(1, 10) for _ in range(rng.choice([1, 2, 3]))] if via == "to_async" else [],
+            "r": rng.choice([["ok", rng.choice(POOL)], ["ok", rng.choice(POOL)], ["raise", 71]])}
+
+
+def run_to_async_default(c):
+    import reactivex as rx
+    calls, out, done = [], [], threading.Event()
+
+    def func(*args):
+        calls.append(list(args))
+        if c["r"][0] == "raise":
+            raise UserError(c["r"][1])
+        return c["r"][1]
+    obs = rx.start(func) if c["via"] == "start" else rx.to_async(func)(*c["args"])
+    obs.subscribe(lambda v: out.append((0, "N", v)), lambda e: (out.append((0, "E", err_id(e))), done.set()),
+                  lambda: (out.append((0, "C", None)), done.set()))
+    finished = done.wait(30)
+    return {"notes": list(out), "calls": len(calls), "received": list(calls), "finished": finished}
+
+
+def oracle_to_async_default(c, r):
+    ns = [(a, b) for (_, a, b) in r["notes"]]
+    want = [("N", c["r"][1]), ("C", None)] if c["r"][0] == "ok" else [("E", c["r"][1])]
+    if not r["finished"]:
+        return f"no termination within 30 s (received {ns}), specified {want}"
+    if ns != want:
+        return f"received {ns}, specified {want}"
+    if r["received"] != [c["args"]]:
+        return f"the function received {r['received']}, specified one call with {c['args']}"
     return None
 
 
@@ -475,7 +656,50 @@ FAM = {"from_future": (gen_from_future, run_from_future, g_from_future, oracle_f
        "to_future": (gen_to_future, run_to_future, g_to_future, oracle_to_future),
        "run": (gen_run, run_run, g_run, oracle_run),
        "to_async": (gen_to_async, run_to_async, g_to_async, oracle_to_async),
-       "from_callback": (gen_from_callback, run_from_callback, g_from_callback, oracle_from_callback)}
+       "from_callback": (gen_from_callback, run_from_callback, g_from_callback, oracle_from_callback),
+       # oracle only (real timer threads): no model case
+       "to_async_default": (gen_to_async_default, run_to_async_default, None, oracle_to_async_default)}
+
+
+def forced_cases(fam):
+    """falsy last elements / results (None, 0, "") in EVERY run, through every route; a falsy exception object
+    (len() == 0) through run() and the asyncio routes -- not through concurrent.futures futures: CPython's
+    Future itself tests `if self._exception:` (Lib/concurrent/futures/_base.py) and drops such an exception"""
+    out = []
+
+    def err(route):
+        return FALSY_ERR if route in ("aio", "default", "await", "await_later", "to_future_default", "run",
+                                      "run_sched", "run_thread") else 11
+    if fam == "to_future":
+        for kind in ("cf", "aio", "default"):
+            for v in FALSY:
+                out.append({"family": fam, "kind": kind, "acts": [["src", ["N", 5]], ["src", ["N", v]], ["src", ["C"]]]})
+                out.append({"family": fam, "kind": kind, "acts": [["src", ["N", v]], ["src", ["C"]]]})
+            out.append({"family": fam, "kind": kind, "acts": [["src", ["N", 1]], ["src", ["E", err(kind)]]]})
+    elif fam == "run":
+        for via in sorted(set(VIAS)):
+            for v in FALSY:
+                out.append({"family": fam, "via": via, "events": [["N", 5], ["N", v], ["C"]]})
+                out.append({"family": fam, "via": via, "events": [["N", v], ["C"]]})
+            out.append({"family": fam, "via": via, "events": [["N", 1], ["E", err(via)]]})
+            out.append({"family": fam, "via": via, "events": [["E", err(via)]]})
+            out.append({"family": fam, "via": via, "events": [["C"]]})
+    elif fam == "from_future":
+        for kind in ("cf", "aio", "start_async"):
+            for v in FALSY:
+                out.append({"family": fam, "kind": kind, "init": ["pending"], "acts": [["result", v]]})
+                out.append({"family": fam, "kind": kind, "init": ["result", v], "acts": []})
+            out.append({"family": fam, "kind": kind, "init": ["pending"], "acts": [["exn", err(kind)]]})
+    elif fam == "to_async":
+        for via in ("to_async", "start"):
+            for v in FALSY:
+                out.append({"family": fam, "sched": "proxy", "via": via, "args": [3, 4] if via == "to_async" else [],
+                            "r": ["ok", v], "acts": ["run", "sub"]})
+    elif fam == "to_async_default":
+        for via in ("to_async", "start"):
+            for r in (["ok", None], ["ok", 7], ["raise", 71]):
+                out.append({"family": fam, "via": via, "args": [2, 5, 1] if via == "to_async" else [], "r": r})
+    return out
 
 
 def start_async_raising():
@@ -497,35 +721,64 @@ def run(chk):
         ncase = 1500
     cases, per, nontrivial = [], {}, set()
     hist = {"unsubscribed_first": 0, "future_cancelled": 0, "empty_sequence": 0, "erroring_sequence": 0,
-            "blocks": 0, "mapper": 0, "zero_callback_arguments": 0, "asyncio_future": 0}
-    for fam in FAMILIES:
+            "blocks": 0, "mapper": 0, "zero_callback_arguments": 0, "asyncio_future": 0,
+            "last_element_falsy": 0, "last_element_none": 0, "falsy_exception_object": 0, "forced_cases": 0,
+            "run_source_terminates_on_another_thread": 0, "await_source_terminates_from_loop_timer": 0,
+            "to_future_without_future_ctor": 0, "run_with_scheduler_argument": 0,
+            "to_async_nonzero_arguments": 0, "default_timeout_scheduler": 0}
+    for k in NOTES:
+        NOTES[k] = 0
+    for fam in FAMILIES + ["to_async_default"]:
         gen, runner, gal, orc = FAM[fam]
-        n = ncase if fam != "run" else max(40, ncase // 3)
-        for _ in range(n):
-            c = gen(chk.rng)
-            r = runner(c)
+        n = ncase if fam != "run" else max(60, ncase // 3)
+        if fam == "to_async_default":
+            n = {"quick": 10, "thorough": 60}[chk.tier]
+        forced = forced_cases(fam)
+        hist["forced_cases"] += len(forced)
+        for i in range(len(forced) + n):
+            c = forced[i] if i < len(forced) else gen(chk.rng)
             chk.cov["evaluations"] += 1
             per[fam] = per.get(fam, 0) + 1
-            gi, go = gal(c, r)
+            try:
+                r = runner(c)
+            except Exception as e:        # the bridge call itself (building the future / observable) raised
+                v = f"the bridge call raised {type(e).__name__}: {e}"
+                chk.violation(f"C41|{fam}|{v[:60]}", {"case": c, "what": v}, size=len(json.dumps(c)))
+                continue
+            gi, go = gal(c, r) if gal else (json.dumps(c, sort_keys=True), None)
             v = orc(c, r)
             if v:
                 chk.violation(f"C41|{fam}|{v[:60]}", {"case": c, "model_case": gi, "observed": go, "what": v},
                               size=len(json.dumps(c)))
             else:
-                nontrivial.add(gi)
-            cases.append((gi, go))
+                nontrivial.add((c.get("via"), gi) if fam == "run" else gi)
+            if gal:
+                cases.append((gi, go))
             hist["asyncio_future"] += c.get("kind") == "aio"
             if fam == "from_future":
                 hist["unsubscribed_first"] += bool(c["acts"] and c["acts"][0][0] == "dispose" and c["init"][0] == "pending")
                 hist["future_cancelled"] += r["fin"][0] == "cancelled"
+                hist["falsy_exception_object"] += any(a == ["exn", FALSY_ERR] for a in c["acts"])
             if fam in ("run", "to_future"):
                 evs = c["events"] if fam == "run" else [a[1] for a in c["acts"] if a[0] == "src"]
+                w = expected_outcome(evs)
                 hist["empty_sequence"] += bool(evs and evs[0][0] == "C")
-                hist["erroring_sequence"] += expected_outcome(evs)[0] == "exn"
-                hist["blocks"] += expected_outcome(evs)[0] == "pending"
+                hist["erroring_sequence"] += w[0] == "exn"
+                hist["blocks"] += w[0] == "pending"
+                hist["last_element_falsy"] += is_falsy_last(evs)
+                hist["last_element_none"] += w == ("result", None)
+                hist["falsy_exception_object"] += w == ("exn", FALSY_ERR)
+                hist["run_source_terminates_on_another_thread"] += c.get("via") == "run_thread"
+                hist["await_source_terminates_from_loop_timer"] += c.get("via") == "await_later"
+                hist["run_with_scheduler_argument"] += c.get("via") == "run_sched"
+                hist["to_future_without_future_ctor"] += c.get("via") == "to_future_default" or c.get("kind") == "default"
+            if fam in ("to_async", "to_async_default"):
+                hist["to_async_nonzero_arguments"] += bool(c["args"])
+                hist["default_timeout_scheduler"] += fam == "to_async_default"
             if fam == "from_callback":
                 hist["mapper"] += c["mapper"] is not None
                 hist["zero_callback_arguments"] += bool((c["sync"] + c["later"]) and not (c["sync"] + c["later"])[0])
+    hist.update(NOTES)
     got = start_async_raising()
     chk.cov["evaluations"] += 1
     if got != [("E", 74)]:
@@ -548,7 +801,20 @@ def run(chk):
                        "same sequences (no terminal: watchdog); to_async / start: result or exception, proxy or immediate "
                        "scheduler, every order of run / subscribe / unsubscribe; from_callback: no mapper / sum / len / "
                        "raising / raising on empty, 0-2 handler invocations inside the call and 0-2 later, 0-3 arguments; "
-                       "non-trivial = distinct model cases on which the oracle held")
+                       "element / result payloads drawn from None, 0, '' (25%) and 1..9, None and '' rendered under "
+                       "reserved ids; FORCED into every run: last element None / 0 / '' (alone and after a truthy "
+                       "element) and the empty sequence through every route of to_future (cf / asyncio / no future_ctor), "
+                       "run / await (9 routes) and from_future, a falsy exception object (len()==0) through run() and the "
+                       "asyncio routes (not through concurrent.futures futures: CPython's Future drops it itself), "
+                       "falsy results of to_async / start; run routes added: run_thread (subscribe returns, a plain thread delivers the "
+                       "sequence once the caller is seen inside threading's wait(), at the latest after 0.3 s: run() "
+                       "must block and wake up; 30 s watchdog), await_later (sequence delivered by a call_later timer "
+                       "of the running loop), run_sched (run(source, scheduler)), to_future_default (ops.to_future() "
+                       "without future_ctor outside a running loop; also as hot-source kind 'default'); to_async called "
+                       "with 1-3 generated non-zero arguments, the arguments received by the function are compared; "
+                       "to_async_default (oracle only): start / to_async on their default TimeoutScheduler, waited for "
+                       "on a threading.Event; non-trivial = distinct model cases (per route for run) on which the "
+                       "oracle held")
     chk.cov["input_distribution"] = {"per_family": per, **hist}
     chk.add_samples([{"case": c[0], "observed": c[1]} for c in cases[:: max(1, len(cases) // 6)]][:6])
     return chk.finish(
@@ -556,9 +822,15 @@ def run(chk):
                        "watchdog of harness/props/C41.py; proxy scheduler of harness/k2m.py for to_async/start"],
         assumptions=["asyncio done-callbacks run when the harness steps the loop (after every action): the model places "
                      "them at the position of that action",
-                     "run() is exercised with sources that notify on the calling thread; blocking on the threading.Event "
-                     "until another thread terminates the sequence, and start()/to_async on real TimeoutScheduler "
-                     "threads, are not exhibited by the model (partial)"])
+                     "real threads (run() woken by another thread, start()/to_async on TimeoutScheduler timer threads) "
+                     "are exercised under the OS scheduler, not under a controlled interleaving: the outcome is "
+                     "checked, the model does not exhibit the thread machinery; input_distribution."
+                     "run_blocked_observed counts the runs in which the caller was seen waiting before the source "
+                     "thread delivered",
+                     "ops.to_future() without future_ctor outside a running loop emits a DeprecationWarning on CPython "
+                     "3.12 (bare asyncio.Future() with no current loop; a RuntimeError from 3.14 on): counted in "
+                     "input_distribution.to_future_default_deprecation_warnings, outcome checked as for the other "
+                     "routes"])
 
 
 def replay(chk, path):
@@ -573,9 +845,14 @@ def replay(chk, path):
             return 1
         return 0
     gen, runner, gal, orc = FAM[c["family"]]
-    r = runner(c)
+    try:
+        r = runner(c)
+    except Exception as e:
+        print(json.dumps({"case": c, "oracle": f"the bridge call raised {type(e).__name__}: {e}"}, indent=1))
+        print(f"VIOLATION property=C41 replay={path}")
+        return 1
     v = orc(c, r)
-    gi, go = gal(c, r)
+    gi, go = gal(c, r) if gal else (None, None)
     print(json.dumps({"case": c, "model_case": gi, "observed": go, "oracle": v or "holds"}, indent=1))
     if v:
         print(f"VIOLATION property=C41 replay={path}")
